@@ -1009,6 +1009,8 @@ where
     pub ids_seen: Vec<u32>,
     /// no-op probes sent so far
     pub noops: u64,
+    /// start programs through the legacy capability API (derive app only)
+    pub legacy: bool,
 }
 
 impl<A: LabApp> BridgeHost<A>
@@ -1025,6 +1027,7 @@ where
                 seen_log: 0,
                 ids_seen: vec![],
                 noops: 0,
+                legacy: false,
             },
             Wire::Json => BridgeHost {
                 bincode: None,
@@ -1033,6 +1036,7 @@ where
                 seen_log: 0,
                 ids_seen: vec![],
                 noops: 0,
+                legacy: false,
             },
         }
     }
@@ -1211,7 +1215,11 @@ where
     }
     fn start(&mut self, program: &Cmd) -> Obs {
         let mut out = Obs::default();
-        let r = self.send_event(&Event::Start(Box::new(program.clone())));
+        let r = self.send_event(&if self.legacy {
+            Event::StartLegacy(Box::new(program.clone()))
+        } else {
+            Event::Start(Box::new(program.clone()))
+        });
         self.observe(r, &mut out);
         out
     }
